@@ -1541,13 +1541,14 @@ RE_TARGET_INLINE = re.compile(
 )
 
 # Top-level control
-RE_WHILE_TRUE     = re.compile(r"^\s*while\s+True\s*:\s*$")
-RE_WHILE          = re.compile(r"^\s*while\s+(.+?)\s*:\s*$")
+# a keyword may stand directly against an opening parenthesis: ``while(True):``, ``if(x > 1):``
+RE_WHILE_TRUE     = re.compile(r"^\s*while(?:\s+True|\s*\(\s*True\s*\))\s*:\s*$")
+RE_WHILE          = re.compile(r"^\s*while(?:\s+|(?=\())(.+?)\s*:\s*$")
 RE_FOR_RANGE      = re.compile(
     r"^\s*for\s+([A-Za-z_]\w*)\s+in\s+range\((.*)\)\s*:\s*$"
 )
-RE_IF             = re.compile(r"^\s*if\s+(.+?)\s*:\s*$")
-RE_ELIF           = re.compile(r"^\s*elif\s+(.+?)\s*:\s*$")
+RE_IF             = re.compile(r"^\s*if(?:\s+|(?=\())(.+?)\s*:\s*$")
+RE_ELIF           = re.compile(r"^\s*elif(?:\s+|(?=\())(.+?)\s*:\s*$")
 RE_ELSE           = re.compile(r"^\s*else\s*:\s*$")
 RE_TRY            = re.compile(r"^\s*try\s*:\s*$")
 RE_EXCEPT         = re.compile(
